@@ -609,6 +609,8 @@ class C12(Prop):
                 continue
             wf = case.split(" ")[2] == "w"
             t = unhex(case.split(" ")[1])
+            if M.get("lib") != "A":
+                res.model_disagreements.append(dict(key="c12:library-drain-vs-spec", case=case, detail="Impl.drainArr/drainObj differ from Spec.arrayItems/objectItems"))
             for kind, fields, ufields in (("arr", ["arr", "arr_str", "arr_fs"], ["arr_u", "lv_arr"]), ("obj", ["obj", "obj_str", "obj_bytes"], ["obj_u", "lv_obj"])):
                 sitems, send = M[f"spec.{kind}"].split("|")
                 mitems, mend = M[f"m.{kind}"].split("|")
